@@ -382,3 +382,73 @@ Theorem C13_single_contract_side_condition_is_reachability :
 Proof. exact leaves_justified_subroutine_free. Qed.
 
 Print Assumptions C13_single_contract_side_condition_is_reachability.
+
+   Extension (group-configuration reading regenerated): tools/translate_groupinit.py -> Gen/GroupInitGen.v,
+   Lemmas/GroupInitGenLemmas.v *)
+From Coq Require Import List String NArith ZArith Bool Arith.
+From Tealer Require Import Tables Leaves LeafPrelude Syntax Parse Cfg StackAst Keys KeysGen Analysis Domains Detect Group SearchGen GroupGen GroupInitGen GroupLemmas GroupGenLemmas GroupInitGenLemmas.
+
+(* the construction of Transaction / GroupTransaction objects from one group of the configuration, REGENERATED from
+   init_tealer_from_config, equals a heap-free functional program (per entry: type table, application, logic-sig,
+   repeated id; then relative indexes and absolute indexes; then fill_group_relative_indexes), for every contracts
+   table and every entry list, with the same exception in the same case *)
+Theorem C13_regenerated_group_init_is_functional :
+  forall (cs : list (string * tcontract)) (grp : GroupConfigGroup), init_group_gen cs grp = init_group_spec cs grp.
+Proof. exact init_group_gen_spec. Qed.
+
+(* whenever it returns, the objects are exactly the model's records of the entries, in listing order (type through
+   USER_CONFIG_TRANSACTION_TYPES, has_logic_sig forced by a logic_sig, functions by index, relative indexes = rel_dict of
+   the configured pairs), ids are pairwise distinct, transactions / absolute_indexes / group_relative_indexes are what
+   the regenerated verdict reads *)
+Theorem C13_regenerated_group_init_yields_model_records :
+  forall (cs : list (string * tcontract)) (grp : GroupConfigGroup) (heap : list tobj) (g : gobj),
+       init_group_gen cs grp = Ok (heap, g) ->
+       let es := cg_transactions grp in
+       view_group heap g = map (cfg_gtxn cs) es /\
+       NoDup (map ct_txn_id es) /\
+       gr_transactions g = seq 0 (List.length es) /\
+       List.length heap = List.length es /\
+       gr_operation_name g = cg_operation grp /\
+       gr_absolute_indexes g = abs_pairs 0 es /\
+       Forall (fun o : tobj => o_group_transaction o = true) heap /\
+       attr_group_relative_indexes (view_group heap g) = Some (gr_group_relative_indexes g).
+Proof. exact init_group_ok_view. Qed.
+
+(* regenerated reading followed by the regenerated verdict = the model's verdict on the model group *)
+Theorem C13_regenerated_init_then_verdict_equals_model :
+  forall (funcs : list (func * fn_result)) (checks : bctx -> bool) (dtype : string) (vtypes : option (list string))
+         (cs : list (string * tcontract)) (grp : GroupConfigGroup) (heap : list tobj) (g : gobj),
+       init_group_gen cs grp = Ok (heap, g) ->
+       dtype = "STATELESS" \/ dtype = "STATEFULL" ->
+       group_ok funcs (map (cfg_gtxn cs) (cg_transactions grp)) ->
+       group_verdict_gen funcs checks dtype vtypes (view_group heap g) =
+       Some (group_verdict funcs checks dtype vtypes (map (cfg_gtxn cs) (cg_transactions grp))).
+Proof. exact init_then_verdict_eq. Qed.
+
+(* the group built by init_tealer_from_single_contract: one transaction running the contract's only function, as
+   logic-sig iff the contract type is LogicSig; for a logic-sig the group verdict is the single-contract criterion *)
+Theorem C13_single_contract_group :
+  forall (name ctype : string) (k : nat),
+       exists (heap : list tobj) (g : gobj),
+         init_single_gen name (single_contract name ctype k) = Ok (heap, g) /\
+         view_group heap g = [single_gtxn name ctype k] /\ gr_absolute_indexes g = [] /\ gr_operation_name g = name.
+Proof. exact init_single_view. Qed.
+
+Theorem C13_single_contract_logic_sig_iff :
+  forall (funcs : list (func * fn_result)) (checks : bctx -> bool) (dtype : string) (vtypes : option (list string))
+         (name ctype : string) (k : nat) (f : func) (r : fn_result),
+       nth_error funcs k = Some (f, r) ->
+       let t := single_gtxn name ctype k in
+       (g_logic_sig t = Some k <-> ctype = "LogicSig") /\
+       (g_application t = Some k <-> ctype <> "LogicSig") /\
+       (g_has_logic_sig t = true <-> ctype = "LogicSig") /\
+       (ctype = "LogicSig" -> eligible dtype vtypes t ->
+        (txn_vulnerable funcs checks dtype vtypes [t] t = true <->
+         exists b, fn_leaf_block f b /\ validated_in_block r checks None b = false)).
+Proof. exact init_single_logic_sig. Qed.
+
+Print Assumptions C13_regenerated_group_init_is_functional.
+Print Assumptions C13_regenerated_group_init_yields_model_records.
+Print Assumptions C13_regenerated_init_then_verdict_equals_model.
+Print Assumptions C13_single_contract_group.
+Print Assumptions C13_single_contract_logic_sig_iff.
